@@ -189,7 +189,7 @@ PROPERTIES = {
     },
     "C20": {
         "functions": [S + "_continue_with_batch", S + "_flush_batch", S + "_continue_with_task", S + "_handle_async_task", S + "_execute",
-                      S + "_schedule_batch", B + "BatchBase.flush", F + "FutureBase._computed", T + "_continue_on_generator",
+                      S + "_schedule_batch", S + "_select_batch_to_flush", S + "wait_for", B + "BatchBase.flush", F + "FutureBase._computed", T + "_continue_on_generator",
                       T + "__init__", B + "BatchItemBase.__init__", T + "_accept_yield_result", T + "_queue_exit", T + "_accept_error"],
         "structural": ["option-erasure", "carith-clock-fields"],
         "assumptions": ["options are not toggled while tasks are alive", "debug.write/str/repr/dump are total and touch only stdout/stderr (C18)",
